@@ -4,7 +4,8 @@
    saw the dropped blocks (spec_asif); theorems proved so far: reorg algebra, fail-stop interaction, tree re-init. *)
 From Coq Require Import Arith NArith ZArith List Bool.
 From Verif Require Import Base.Bytes Base.Hash Model.Merkle Model.MerkleSpec Model.TreeStore Model.BridgeStore
-  Proofs.Frontier Proofs.Rht Proofs.InitCache Proofs.C01Proofs Proofs.BridgeStoreProofs.
+  Proofs.Frontier Proofs.Rht Proofs.InitCache Proofs.C01Proofs Proofs.BridgeStoreProofs
+  Proofs.TreeStoreProofs Proofs.TreeStoreCorollaries.
 Import ListNotations.
 Open Scope N_scope.
 
@@ -31,7 +32,7 @@ Variable z0 : hash.
 Variable f : nat -> hash.
 (* after a reorg the surviving version n of the tree is still closed in the (never cleaned) node table, so the cache
    rebuilt on the index mismatch satisfies the frontier invariant and the fork's deposits get the reference roots *)
-Theorem C04_tree_after_reorg_reinit : forall m n H c, Closed node z0 f m n -> 0 < n -> n <= 2 ^ H ->
+Theorem C04_tree_after_reorg_reinit : forall m n H c, Closed node z0 f H m n -> 0 < n -> n <= 2 ^ H ->
   exists c', init_walk m H (mroot node z0 f H n) (Nat.testbit (n - 1)) c = Some c' /\ CacheInv node z0 f H n c'.
 Proof. exact (init_cache_inv node z0 f). Qed.
 Theorem C04_fork_roots_are_reference_roots : forall H i c, i < 2 ^ H -> CacheInv node z0 f H i c ->
@@ -48,7 +49,38 @@ Theorem C04_asif_legacy_refuted :
   d_legacy (st_db (reorg (run_blocks f6_hist) 7)) <> d_legacy (st_db (run_blocks (filter (fun k => k_num k <? 7) f6_hist))).
 Proof. vm_compute. congruence. Qed.
 
+
+(* ================= store level: every reachable state of the (generic) executable tree store =================
+   `Reach HT node zhf db mem L`: the store (root table, node table, in-memory frontier) is reachable from the empty one by
+   successful appends of the next index, appends with a wrong index, appends abandoned after the hashing loop (storage fault),
+   memory invalidations with arbitrary cache content (restart, rollback callback, reorg) and Tree.Reorg; L is the surviving
+   history (leaf, block, position). The executable model (compared with the Go code on every run) is the instance
+   HT := 32, node := Keccak-256, zhf := the precomputed zero table (zero_table_is_zero). Hypothesis: node injective. *)
+Section Store.
+Variable HT : nat.
+Variable node : N -> N -> N.
+Hypothesis node_inj : forall a b c d, node a b = node c d -> a = c /\ b = d.
+Variable zhf : nat -> N.
+Hypothesis Hzh : forall h, (h <= HT)%nat -> zhf h = zero node 0%N h.
+(* C04 for the exit tree: two reachable stores with the same surviving history answer every tree query identically. One of
+   them went through the dropped blocks and Tree.Reorg (R_reorg truncates the history to the surviving roots), the other never
+   saw them; continuing both with the same fork keeps the histories equal, so the answers stay equal. Root rows (hash,
+   index, block, position), lookups by index / by hash / last root, proofs and leaves for every recorded version. *)
+Theorem C04_store_reorg_as_if_never_seen : forall db1 mem1 db2 mem2 L, Reach HT node zhf db1 mem1 L -> Reach HT node zhf db2 mem2 L ->
+  (forall i, root_by_index db1 i = root_by_index db2 i) /\
+  (forall h, root_by_hash db1 h = root_by_hash db2 h) /\
+  last_root db1 = last_root db2 /\
+  (forall j k, (j < k)%nat -> (k <= length L)%nat ->
+     Gen.get_proof HT zhf db1 (N.of_nat j) (mroot node 0%N (lf L) HT k) = Gen.get_proof HT zhf db2 (N.of_nat j) (mroot node 0%N (lf L) HT k) /\
+     Gen.get_leaf HT db1 (N.of_nat j) (mroot node 0%N (lf L) HT k) = Gen.get_leaf HT db2 (N.of_nat j) (mroot node 0%N (lf L) HT k)).
+Proof. exact (same_history_same_answers HT node node_inj zhf Hzh). Qed.
+Theorem C04_store_reorg_as_if_never_seen_roots : forall db1 mem1 db2 mem2 L, Reach HT node zhf db1 mem1 L -> Reach HT node zhf db2 mem2 L -> t_roots db1 = t_roots db2.
+Proof. exact (same_history_same_roots HT node node_inj zhf Hzh). Qed.
+End Store.
+
 Print Assumptions C04_reorg_nested.
+Print Assumptions C04_store_reorg_as_if_never_seen.
+Print Assumptions C04_store_reorg_as_if_never_seen_roots.
 Print Assumptions C04_reorg_above_tip_identity.
 Print Assumptions C04_tree_after_reorg_reinit.
 Print Assumptions C04_fork_roots_are_reference_roots.
